@@ -243,6 +243,15 @@ class HierDictDocument(DictDocument):
                     else:
                         retval = inst
 
+                elif isinstance(inst, six.binary_type) and \
+                                       issubclass(cls, self.stringified_types):
+                    # text that came as bytes (eg. msgpack bin): the bytes
+                    # handlers know how to decode it.
+                    try:
+                        retval = self.from_bytes(cls, inst)
+                    except UnicodeDecodeError:
+                        raise ValidationError([key, inst])
+
                 else:
                     retval = self.from_serstr(cls, inst)
 
